@@ -187,9 +187,15 @@ def process_unit(unit, tier, seed):
         if kind is None:
             frontend_errors.append(msg + " :: " + (d.get("rendered") or "")[:400])
             continue
-        spans = [s for s in d.get("spans", []) if s.get("file_name") == gen_name]
+        def call_site(s):
+            # a failure inside a std macro (todo!(), unreachable!(), panic!()) is reported at the macro's definition:
+            # follow the expansion chain back to the place in the generated file
+            while s is not None and s.get("file_name") != gen_name:
+                s = (s.get("expansion") or {}).get("span")
+            return s
+        spans = [x for x in (call_site(s) for s in d.get("spans", [])) if x]
         for ch in d.get("children", []):
-            spans += [s for s in ch.get("spans", []) if s.get("file_name") == gen_name]
+            spans += [x for x in (call_site(s) for s in ch.get("spans", [])) if x]
         prim = [s for s in spans if s.get("is_primary")] or spans
         fn_id, repo_loc, tags, hl = None, None, [], None
         clause_text = None
